@@ -100,6 +100,10 @@ def py_state(spec: dict, tokens: Sequence[int]) -> int:
 
 
 def py_next_logits(spec: dict, cond: int, tokens: Sequence[int]) -> List[float]:
+    if "fusion" in spec:
+        # the library's shallow fusion of two models: first + beta * second (then normalised by the search)
+        s1, s2, beta = spec["fusion"]
+        return [a + beta * b for a, b in zip(py_next_logits(s1, cond, tokens), py_next_logits(s2, cond, tokens))]
     q = float(spec.get("q", 4))
     s = py_state(spec, tokens)
     dead = {int(t) for st_, t in spec.get("ninf", []) if int(st_) == s}
@@ -220,3 +224,21 @@ class PyLM:
         for x in tokens:
             s = (s * self.mult + int(x) + 1) % self.M
         return self.row(cond, s)
+
+
+def make_lm(spec: dict, cap: Optional[int] = None):
+    """HashLM for a plain specification; the library's MixableShallowFusionLanguageModel over two HashLMs
+    (both carrying state under the same key names) for {"fusion": [spec1, spec2, beta], ...}."""
+    if "fusion" in spec:
+        from pydrobert.torch.modules import MixableShallowFusionLanguageModel
+
+        s1, s2, beta = spec["fusion"]
+        return MixableShallowFusionLanguageModel(HashLM(s1, cap=cap), HashLM(s2, cap=cap), float(beta))
+    return HashLM(spec, cap=cap)
+
+
+def initial_state(spec: dict, conds):
+    t = torch.tensor(list(conds), dtype=torch.long)
+    if "fusion" in spec:
+        return {"first.cond": t, "second.cond": t.clone()}
+    return {"cond": t}
